@@ -678,6 +678,107 @@ const CODECS: [u64; 3] = [0x55, 0x70, 0x71];
 const CLAIMED_LENS: [u64; 6] = [0, 20, 32, 64, 255, 256];
 const UNCOMPUTABLE: [u64; 3] = [0x00, 0x11, 0x9999];
 
+// ------------------------------------------------------------------------------------------------
+// the real Bitswap protocol on two nodes: the response path end to end (send_response itself)
+// ------------------------------------------------------------------------------------------------
+
+/// Two real `Litep2p` nodes with the real Bitswap protocol on SimNet. The client asks for three blocks; the server
+/// answers with ONE response that carries `presences` DontHave entries (so many that their message cannot be sent in one
+/// piece when `presences` is large) followed by the three blocks. Whatever happens to the presences, every block fits a
+/// message and must be delivered once, unaltered, under the identifier derived from its bytes.
+fn response_end_to_end(ctx: &mut Ctx, presences: usize) {
+    use crate::env::simnet::{NodeCmd, World};
+    use litep2p::{
+        config::ConfigBuilder,
+        protocol::libp2p::bitswap::{BitswapEvent, BlockPresenceType, Config as BitswapConfig, ResponseType, WantType},
+    };
+    let result = std::thread::spawn(move || -> Result<(usize, usize), (String, String)> {
+        let rt = crate::env::driver::runtime(3);
+        let _g = rt.enter();
+        let mut w = World::new();
+        let (cfg_c, mut client) = BitswapConfig::new();
+        let (cfg_s, mut server) = BitswapConfig::new();
+        let keep = std::time::Duration::from_secs(3600);
+        let c = w.add_node(81, ConfigBuilder::new().with_libp2p_bitswap(cfg_c).with_keep_alive_timeout(keep)).expect("client node");
+        let sv = w.add_node(82, ConfigBuilder::new().with_libp2p_bitswap(cfg_s).with_keep_alive_timeout(keep)).expect("server node");
+        let (peer_c, peer_s) = (w.nodes[c].peer, w.nodes[sv].peer);
+        let addr_s = w.nodes[sv].address.clone();
+        let blocks: Vec<(Cid, Vec<u8>)> = (0..3usize)
+            .map(|i| {
+                let data: Vec<u8> = (0..(40_000 + i * 1000)).map(|k| (k as u8) ^ (i as u8 + 1)).collect();
+                (Cid::new_v1(0x55, Multihash::wrap(0x12, &Sha256::digest(&data)).expect("sha256 multihash")), data)
+            })
+            .collect();
+        let wanted: Vec<(Cid, WantType)> = blocks.iter().map(|(c, _)| (*c, WantType::Block)).collect();
+        // connect first: a request to a peer that is not connected needs a known address
+        w.nodes[c].cmd.send(NodeCmd::DialAddress(addr_s)).map_err(|_| ("machinery/bitswap-setup".to_string(), "client node gone".to_string()))?;
+        w.run_to_quiescence(1_000_000);
+        let got: std::sync::Arc<parking_lot::Mutex<Vec<(Cid, Vec<u8>)>>> = Default::default();
+        let got2 = got.clone();
+        w.spawn_for(c, "bitswap-client", async move {
+            client.send_request(peer_s, wanted).await;
+            use futures::StreamExt;
+            while let Some(ev) = client.next().await {
+                if let BitswapEvent::Response { responses, .. } = ev {
+                    for r in responses {
+                        if let ResponseType::Block { cid, block } = r {
+                            got2.lock().push((cid, block));
+                        }
+                    }
+                }
+            }
+        });
+        let blocks2 = blocks.clone();
+        w.spawn_for(sv, "bitswap-server", async move {
+            use futures::StreamExt;
+            while let Some(ev) = server.next().await {
+                if let BitswapEvent::Request { peer, .. } = ev {
+                    let mut responses: Vec<ResponseType> = (0..presences)
+                        .map(|i| {
+                            let d = Sha256::digest((i as u64).to_le_bytes());
+                            ResponseType::Presence { cid: Cid::new_v1(0x55, Multihash::wrap(0x12, &d).expect("multihash")), presence: BlockPresenceType::DontHave }
+                        })
+                        .collect();
+                    responses.extend(blocks2.iter().map(|(cid, block)| ResponseType::Block { cid: *cid, block: block.clone() }));
+                    server.send_response(peer, responses).await;
+                }
+            }
+        });
+        let _ = peer_c;
+        w.run_to_quiescence(5_000_000);
+        let got = got.lock().clone();
+        let desc = format!("{presences} presences + 3 blocks in one response; the client received {} block(s)", got.len());
+        for (cid, data) in &got {
+            match blocks.iter().find(|(c, _)| c == cid) {
+                Some((_, d)) if d == data => {}
+                Some(_) => return Err(("e2e/block-altered".to_string(), format!("block {cid} arrived with other bytes; {desc}"))),
+                None => return Err(("e2e/unknown-block".to_string(), format!("a block {cid} arrived that was never sent; {desc}"))),
+            }
+        }
+        for (cid, _) in &blocks {
+            let n = got.iter().filter(|(c, _)| c == cid).count();
+            if n != 1 {
+                return Err((
+                    "e2e/block-not-delivered-exactly-once".to_string(),
+                    format!("block {cid} (fits a message on its own) was delivered {n} times; {desc}"),
+                ));
+            }
+        }
+        Ok((got.len(), w.driver.steps as usize))
+    })
+    .join();
+    let replay = json!({"kind": "bitswap-response-end-to-end", "presences": presences});
+    match result {
+        Ok(Ok((n, steps))) => {
+            ctx.cov_add("evaluations", 1);
+            ctx.sub(&format!("response_end_to_end[{presences} presences]"), json!({"blocks_delivered": n, "driver_steps": steps}));
+        }
+        Ok(Err((sig, what))) if sig.starts_with("machinery/") => ctx.machinery_error(format!("{sig}: {what}")),
+        Ok(Err((sig, what))) => ctx.violation(Violation { signature: sig, what, replay }),
+        Err(_) => ctx.machinery_error("bitswap end-to-end scenario panicked"),
+    }
+}
+
 pub fn run(ctx: &mut Ctx) {
     let tier = ctx.tier;
     let peer = util::peer(1);
@@ -1229,6 +1330,10 @@ pub fn run(ctx: &mut Ctx) {
     acc.ctx.sample(json!({"kind": "overhead", "per_block_size": overhead_report.clone()}));
     acc.ctx.sub("batching_protobuf_overhead", json!({"cases": b3_cases, "result": overhead_report}));
 
+    // ---------------------------------------------------------------- the real protocol end to end
+    response_end_to_end(acc.ctx, 10);
+    response_end_to_end(acc.ctx, 120_000);
+
     // ---------------------------------------------------------------- totals
     let evaluations = acc.evaluations;
     let distinct = acc.distinct.len();
@@ -1250,7 +1355,7 @@ pub fn run(ctx: &mut Ctx) {
     ctx.assume("a hash code is 'computable' iff the build's multihash code table (Cargo features sha2, blake2b, sha3) has it; sha2-256/512 reference digests come from the independent sha2 crate, the other reference digests from that code table (the bitswap code, not the hashers, is the subject)");
     ctx.assume("a delivered digest may be the full digest or the digest truncated to the prefix's claimed length >= 1 (go-bitswap semantics); an empty digest identifies nothing and is rejected; well-formed computable prefixes may be delivered or dropped, except that an honest sender's own blocks (round trip) must come back");
     ctx.assume("non-minimal varints are malformed (multiformats unsigned-varint requires minimal encoding)");
-    ctx.assume("send_response is reproduced as: extract_next_batch until None, blocks_message per batch, messages larger than MAX_MESSAGE_SIZE are not sent (the code only logs a warning)");
+    ctx.assume("the batch-size sweeps reproduce send_response as: extract_next_batch until None, blocks_message per batch, messages larger than MAX_MESSAGE_SIZE are not sent (the code only logs a warning); send_response itself runs in the two end-to-end scenarios (two real nodes with the real Bitswap protocol on SimNet: 10 and 120000 presences followed by three blocks in one response)");
 }
 
 // ------------------------------------------------------------------------------------------------
